@@ -187,7 +187,9 @@ def run(ctx):
                     # all histories of 3 calls; all of 4 calls on x86/m32, every 4th (seed-rotated) elsewhere
                     hs = h3 + (h4 if main else [h for k, h in enumerate(h4) if k % 4 == ctx.seed % 4])
                 else:
-                    hs = h4 + (h5 if main else [h for k, h in enumerate(h5) if k % 8 == ctx.seed % 8])
+                    # all histories of 4 calls; of the 100000 histories of 5 calls every 2nd on x86/m32 and
+                    # every 16th elsewhere (seed-rotated, so seeds 0..1 / 0..15 cover them all)
+                    hs = h4 + [h for k, h in enumerate(h5) if k % (2 if main else 16) == ctx.seed % (2 if main else 16)]
             else:
                 src = h4 if quick else h5
                 hs = [h for h in src if all(c["cls"] in plain for c in h)]
